@@ -208,3 +208,9 @@ Definition tconv_hw (n K : nat) (s t : Z) (x : nat -> Z) (w : nat -> Z) (o : Z) 
 Definition tconv_ref_pad (n K s on : Z) : Z := Z.max ((n - 1) * s + K - on) 0 / 2.
 Definition tconv_pad_ok (n K s on top bottom : Z) : bool :=
   (top =? K - 1 - tconv_ref_pad n K s on) && (Z.max (on - n * s - top + K - 1) 0 <=? bottom).
+
+(* ---------- calc_padding_and_skirt: the hardware padding of convolutions and pools ---------- *)
+(* per axis: (in front, behind) for SAME (1) / VALID (0); the kernel extent is the dilated one *)
+Definition dilated_extent (k d : Z) : Z := (k - 1) * d + 1.
+Definition conv_pads (same input stride k d : Z) : Z * Z :=
+  if same =? 1 then let t := needed_total_padding input stride (dilated_extent k d) in ((t + 0) / 2, (t + 1) / 2) else (0, 0).
